@@ -13,11 +13,13 @@ import (
 	"github.com/ethereum/go-ethereum/common"
 	"pgregory.net/rapid"
 
+	endpointcontract "github.com/teleport-network/teleport/syscontracts/xibc_endpoint"
 	packetcontract "github.com/teleport-network/teleport/syscontracts/xibc_packet"
 	packettypes "github.com/teleport-network/teleport/x/xibc/core/packet/types"
 
 	"verif/harness/kit"
 	"verif/harness/rec"
+	"verif/harness/sim/asmkit"
 	"verif/harness/sim/bridge"
 )
 
@@ -258,6 +260,130 @@ func (c *ctl) sendInvalid(t *rapid.T) {
 	m.Log("sendInvalid", kind, fmt.Sprintf("rejected (code=%d vm=%s), state unchanged", out.Res.Code, bridge.Short(out.Res.VmError)))
 }
 
+// sendBatch: one Ethereum transaction (a contract under construction) makes 2-3 cross-chain calls with native
+// coins; either all are valid, or one in the middle is invalid and bubbles its failure (the whole transaction
+// must then change nothing), or the invalid one is tolerated by the caller (the valid ones must be numbered
+// consecutively).
+func (c *ctl) sendBatch(t *rapid.T) {
+	m := c.m
+	w := m.W
+	src := rapid.IntRange(0, len(w.Chains)-1).Draw(t, "src")
+	ch := w.Chains[src]
+	user := w.Users[rapid.IntRange(0, 1).Draw(t, "user")]
+	n := rapid.IntRange(2, 3).Draw(t, "calls")
+	mode := rapid.SampledFrom([]string{"all-valid", "all-valid", "one-invalid-bubbles", "one-invalid-tolerated"}).Draw(t, "mode")
+	bad := -1
+	if mode != "all-valid" {
+		bad = rapid.IntRange(0, n-1).Draw(t, "badIndex")
+	}
+	var ops []asmkit.Op
+	total := big.NewInt(0)
+	var dsts []string
+	for i := 0; i < n; i++ {
+		dst := w.Chains[(src+1+rapid.IntRange(0, len(w.Chains)-2).Draw(t, "dst"))%len(w.Chains)].ChainID
+		if rapid.IntRange(0, 3).Draw(t, "toTSS") == 0 {
+			dst = bridge.TSSName
+		}
+		amt := big.NewInt(rapid.Int64Range(1, 50).Draw(t, "amount"))
+		claimed := amt
+		if i == bad {
+			if mode == "one-invalid-bubbles" {
+				dst = "no-such-chain" // fails in the chain-side post-processing of the transaction
+			} else {
+				claimed = new(big.Int).Add(amt, big.NewInt(1)) // claims more than the value it sends: fails inside the EVM call
+			}
+		}
+		ccd := packettypes.CrossChainData{DstChain: dst, TokenAddress: common.Address{}, Receiver: strings.ToLower(w.Users[0].Addr.String()), Amount: claimed, CallData: []byte{}}
+		data, err := endpointcontract.EndpointContract.ABI.Pack("crossChainCall", ccd, packettypes.Fee{TokenAddress: common.Address{}, Amount: big.NewInt(0)})
+		kit.Must(err, "pack crossChainCall")
+		ops = append(ops, asmkit.Op{Kind: asmkit.OpCall, Target: endpointcontract.EndpointContractAddress, Data: data, Value: amt, Try: i == bad && mode == "one-invalid-tolerated"})
+		total.Add(total, amt)
+		dsts = append(dsts, dst)
+	}
+	before := ch.DumpStores(ch.Ctx(), bridge.DigestStores...)
+	res := ch.DeliverEth(user, nil, total, asmkit.Script(ops))
+	after := ch.DumpStores(ch.Ctx(), bridge.DigestStores...)
+	m.Log("sendBatch", fmt.Sprintf("%d %s %v", src, mode, dsts), fmt.Sprintf("ok=%v vm=%s", res.Succeeded(), bridge.Short(res.VmError)))
+	if mode == "one-invalid-bubbles" {
+		if res.Succeeded() {
+			m.Failf("batch with an invalid send (unknown destination) that bubbles its failure succeeded")
+		}
+		if d := kit.Diff(before, after); len(d) != 0 {
+			m.Failf("failed batch changed state:\n%s", kit.DiffString(d, 10))
+		}
+		c.failKinds["batch-invalid"] = true
+		if c.okSends > 0 {
+			c.failBetween = true
+		}
+		m.R.Label("batch_reverted")
+		return
+	}
+	if !res.Succeeded() {
+		// Two sends to the SAME destination in one transaction both read the contract's counter before the chain
+		// side advances it, so the second one carries a stale sequence and the whole transaction is refused
+		// (observed; not demanded or forbidden by the property). Whatever the reason of a failure: nothing may change.
+		if d := kit.Diff(before, after); len(d) != 0 {
+			m.Failf("failed batch (%s, destinations %v) changed state:\n%s", mode, dsts, kit.DiffString(d, 10))
+		}
+		seen := map[string]bool{}
+		dup := false
+		for i, d := range dsts {
+			if i == bad {
+				continue
+			}
+			if seen[d] {
+				dup = true
+			}
+			seen[d] = true
+		}
+		if !dup && mode == "all-valid" {
+			m.Failf("batch of valid native sends to distinct destinations (destinations %v) failed: code=%d vm=%s", dsts, res.Code, res.VmError)
+		}
+		c.failKinds["batch-same-destination"] = true
+		if c.okSends > 0 {
+			c.failBetween = true
+		}
+		m.R.Label("batch_same_destination_refused")
+		return
+	}
+	pkts := w.ObservePackets(src, res.TxResult)
+	wantN := n
+	if bad >= 0 {
+		wantN = n - 1
+	}
+	if len(pkts) != wantN {
+		m.Failf("batch (%s) with %d valid calls succeeded with %d packets", mode, wantN, len(pkts))
+	}
+	var emitted [][]byte
+	for _, l := range res.Logs {
+		if l.Address == packetcontract.PacketContractAddress && len(l.Topics) > 0 && l.Topics[0] == packetSentID {
+			vals, err := packetcontract.PacketContract.ABI.Unpack("PacketSent", l.Data)
+			kit.Must(err, "unpack PacketSent")
+			emitted = append(emitted, vals[0].([]byte))
+		}
+	}
+	if len(emitted) != len(pkts) {
+		m.Failf("batch emitted %d PacketSent logs for %d packets", len(emitted), len(pkts))
+	}
+	for i, p := range pkts {
+		want := c.next[src][p.P.DstChain]
+		if want == 0 {
+			want = 1
+		}
+		if p.P.Sequence != want {
+			m.Failf("send %d of a batch: %s got sequence %d, expected next sequence %d", i, p.T, p.P.Sequence, want)
+		}
+		c.next[src][p.P.DstChain] = want + 1
+		h := sha256.Sum256(emitted[i])
+		c.commits[src][p.T] = h[:]
+		m.ApplySendLedger(p)
+		c.okSends++
+		c.dsts[fmt.Sprintf("%d>%s", src, p.P.DstChain)] = true
+	}
+	m.R.Label("batch_" + mode)
+	m.R.LabelN("send_same_tx", len(pkts))
+}
+
 // sendTSS sends to the TSS-secured pseudo destination (a second kind of destination).
 func (c *ctl) sendTSS(t *rapid.T) {
 	m := c.m
@@ -315,6 +441,7 @@ func run(t *rapid.T, r *rec.Recorder) {
 	acts["sendInvalid"] = m.Wrap(c.sendInvalid)
 	acts["sendInvalid2"] = m.Wrap(c.sendInvalid)
 	acts["sendTSS"] = m.Wrap(c.sendTSS)
+	acts["sendBatch"] = m.Wrap(c.sendBatch)
 	acts[""] = func(t *rapid.T) { m.T = t; c.check() }
 	t.Repeat(acts)
 	var fk []string
